@@ -67,6 +67,14 @@ fn parse_lists(s: &str) -> Vec<Vec<Item>> {
 }
 
 /// `dom keyed|indexed <l0;l1;…>`: mount `div { "pre" ul-less region … }` and observe the parent's children
+/// a key whose `Hash` is coarser than its `Eq` (allowed by the `Hash` contract): only the parity is hashed
+#[derive(Clone, Copy, PartialEq, Eq, Debug)]
+struct CoarseKey(u32);
+impl std::hash::Hash for CoarseKey {
+    fn hash<H: std::hash::Hasher>(&self, state: &mut H) { state.write_u32(self.0 % 2) }
+}
+thread_local! { static COARSE: Cell<bool> = const { Cell::new(false) }; }
+
 fn exec_list(keyed: bool, lists: &[Vec<Item>]) -> (String, Option<String>, bool) {
     domutil::reset_document();
     let container = domutil::container("main");
@@ -85,7 +93,9 @@ fn exec_list(keyed: bool, lists: &[Vec<Item>]) -> (String, Option<String>, bool)
             c3.set(id + 1);
             view! { li(data-c=id.to_string(), data-k=it.0.to_string()) { (it.1.to_string()) } }
         };
-        let v: View = if keyed {
+        let v: View = if keyed && COARSE.with(|c| c.get()) {
+            view! { div { "pre" Keyed(list=sig, view=view_fn, key=|it: &Item| CoarseKey(it.0)) "post" } }
+        } else if keyed {
             view! { div { "pre" Keyed(list=sig, view=view_fn, key=|it: &Item| it.0) "post" } }
         } else {
             view! { div { "pre" Indexed(list=sig, view=view_fn) "post" } }
@@ -326,6 +336,8 @@ pub fn exec(line: &str) -> (String, Option<String>, bool) {
         "indexeddyn" => exec_list_dyn(false, &t[2].split(';').collect::<Vec<_>>()),
         "reconcile" => exec_reconcile(&t[2..]),
         "keyed" => exec_list(true, &parse_lists(t[2])),
+        // the same with keys whose hashes collide
+        "keyedc" => { COARSE.with(|c| c.set(true)); let r = exec_list(true, &parse_lists(t[2])); COARSE.with(|c| c.set(false)); r }
         "indexed" => exec_list(false, &parse_lists(t[2])),
         _ => ("bad-op".into(), None, false),
     }
@@ -402,12 +414,44 @@ pub fn generate(args: &Args) -> Vec<String> {
             for _ in 0..m { let k = 1 + rng.below(6) as u32; if dup || !v.iter().any(|x| x.0 == k) { v.push((k, rng.below(2) as u32)); } }
             if v.is_empty() { "-".to_string() } else { v.iter().map(|(k, p)| format!("{k}.{p}")).collect::<Vec<_>>().join(",") }
         }).collect();
-        l.push(format!("dom {} {}", if i % 3 == 2 { "indexed" } else { "keyed" }, chain.join(";")));
+        l.push(format!("dom {} {}", if i % 3 == 2 { "indexed" } else if i % 6 == 1 && !dup { "keyedc" } else { "keyed" }, chain.join(";")));
         // the same chain with item views that are dynamic at their top level, toggled in between
         if i % 4 == 0 && !dup {
             let mut evs: Vec<String> = vec![];
             for c in &chain { evs.push(format!("l{c}")); if rng.chance(1, 2) { evs.push(format!("t{}", rng.below(6))); } }
             l.push(format!("dom {} {}", if i % 8 == 0 { "indexeddyn" } else { "keyeddyn" }, evs.join(";")));
+        }
+    }
+    // LONG lists: a changed window (what remains after the common prefix and suffix) of every length 2..=12 (thorough 20)
+    // with unchanged items around it: reversed, rotated, ends swapped, half of the keys replaced, shuffled; and back —
+    // through the components and through the node reconciler itself
+    let maxw = if thorough { 20 } else { 12 };
+    for w in 2..=maxw {
+        for (pre, suf) in [(0usize, 0usize), (2, 1)] {
+            let base: Vec<u32> = (1..=(pre + w + suf) as u32).collect();
+            let win = |f: &dyn Fn(&mut Vec<u32>)| -> Vec<u32> {
+                let mut mid: Vec<u32> = base[pre..pre + w].to_vec();
+                f(&mut mid);
+                let mut v = base[..pre].to_vec(); v.extend(mid); v.extend(&base[pre + w..]); v
+            };
+            let mut variants: Vec<Vec<u32>> = vec![
+                win(&|m| m.reverse()),
+                win(&|m| m.rotate_left(1)),
+                win(&|m| m.rotate_right(1)),
+                win(&|m| { let n = m.len(); m.swap(0, n - 1) }),
+                win(&|m| { let n = m.len(); for i in (0..n).step_by(2) { m[i] += 40; } m.swap(0, n - 1) }),
+            ];
+            let mut sh = base[pre..pre + w].to_vec();
+            for i in (1..sh.len()).rev() { let j = rng.below(i + 1); sh.swap(i, j); }
+            if sh[0] == base[pre] { sh.rotate_left(1); }
+            { let mut v = base[..pre].to_vec(); v.extend(sh); v.extend(&base[pre + w..]); variants.push(v); }
+            let items = |x: &Vec<u32>| x.iter().map(|k| format!("{k}.0")).collect::<Vec<_>>().join(",");
+            for v in &variants {
+                l.push(format!("dom keyed {};{};{}", items(&base), items(v), items(&base)));
+                l.push(format!("dom keyedc {};{};{}", items(&base), items(v), items(&base)));
+                l.push(format!("dom reconcile - {} {} -", show_l(&base), show_l(v)));
+                if pre == 0 { l.push(format!("dom indexed {};{};{}", items(&base), items(v), items(&base))); l.push(format!("dom reconcile 80 {} {} 90", show_l(v), show_l(&base))); }
+            }
         }
     }
     l
